@@ -2,6 +2,7 @@ package basm
 
 import (
 	"fmt"
+	"sort"
 	"strconv"
 
 	"github.com/BondMachineHQ/BondMachine/pkg/bondmachine"
@@ -68,7 +69,8 @@ func (bi *BasmInstance) Assembler2Cluster() error {
 		fmt.Println(green("Creating cluster and peers"))
 	}
 
-	for edgeName, edgeId := range bi.clusteredNames {
+	for _, ne := range sortedDevices(bi.clusteredNames) {
+		edgeName, edgeId := ne.name, ne.id
 		if bi.debug {
 			fmt.Println(green("\tProcessing BM:"), red(edgeName), green("id"), blue(edgeId))
 		}
@@ -97,13 +99,15 @@ func (bi *BasmInstance) Assembler2Cluster() error {
 	if bi.debug {
 		fmt.Println(green("Creating metadata for clustered bond machines"))
 	}
-	for edgeName, edgeId := range bi.clusteredNames {
+	for _, ne := range sortedDevices(bi.clusteredNames) {
+		edgeName, edgeId := ne.name, ne.id
 		if bi.debug {
 			fmt.Println(green("\tProcessing BM:"), red(edgeName), green("id"), blue(edgeId))
 		}
 
 		// Write the global metadata unchanged
-		for key, value := range bi.global.LoopMeta() {
+		for _, kv := range sortedMeta(bi.global.LoopMeta()) {
+			key, value := kv[0], kv[1]
 			bi.clusteredBondMachines[edgeId] += "%meta bmdef global " + key + ":" + value + "\n"
 		}
 
@@ -120,7 +124,8 @@ func (bi *BasmInstance) Assembler2Cluster() error {
 					fmt.Println(green("\t\tAdding cp:"), red(cp.GetValue()), green("to BM:"), red(edgeName))
 				}
 				meta := "%meta cpdef " + cp.GetValue()
-				for key, value := range cp.LoopMeta() {
+				for _, kv := range sortedMeta(cp.LoopMeta()) {
+					key, value := kv[0], kv[1]
 					if key != "templated" && key != "device" && key != "devid" {
 						meta += " " + key + ":" + value + ","
 					}
@@ -166,13 +171,15 @@ func (bi *BasmInstance) Assembler2Cluster() error {
 					devName := cpDev[other]
 					devId := bi.clusteredNames[devName]
 					meta := "%meta ioatt " + l2.GetValue()
-					for key, value := range l2.LoopMeta() {
+					for _, kv := range sortedMeta(l2.LoopMeta()) {
+						key, value := kv[0], kv[1]
 						meta += " " + key + ":" + value + ","
 					}
 					bi.clusteredBondMachines[devId] += meta[:len(meta)-1] + "\n"
 
 					meta = "%meta ioatt " + l1.GetValue()
-					for key, value := range l1.LoopMeta() {
+					for _, kv := range sortedMeta(l1.LoopMeta()) {
+						key, value := kv[0], kv[1]
 						if key == "index" {
 							if l1.GetMeta("type") == "input" {
 								meta += " " + key + ":" + strconv.Itoa(iCounter[devId]) + ","
@@ -195,13 +202,15 @@ func (bi *BasmInstance) Assembler2Cluster() error {
 					devName := cpDev[other]
 					devId := bi.clusteredNames[devName]
 					meta := "%meta ioatt " + l1.GetValue()
-					for key, value := range l1.LoopMeta() {
+					for _, kv := range sortedMeta(l1.LoopMeta()) {
+						key, value := kv[0], kv[1]
 						meta += " " + key + ":" + value + ","
 					}
 					bi.clusteredBondMachines[devId] += meta[:len(meta)-1] + "\n"
 
 					meta = "%meta ioatt " + l2.GetValue()
-					for key, value := range l2.LoopMeta() {
+					for _, kv := range sortedMeta(l2.LoopMeta()) {
+						key, value := kv[0], kv[1]
 						if key == "index" {
 							if l2.GetMeta("type") == "input" {
 								meta += " " + key + ":" + strconv.Itoa(iCounter[devId]) + ","
@@ -227,13 +236,15 @@ func (bi *BasmInstance) Assembler2Cluster() error {
 					// The bonds are within the same device
 					devId := bi.clusteredNames[l1DevName]
 					meta := "%meta ioatt " + l1.GetValue()
-					for key, value := range l1.LoopMeta() {
+					for _, kv := range sortedMeta(l1.LoopMeta()) {
+						key, value := kv[0], kv[1]
 						meta += " " + key + ":" + value + ","
 					}
 					bi.clusteredBondMachines[devId] += meta[:len(meta)-1] + "\n"
 
 					meta = "%meta ioatt " + l2.GetValue()
-					for key, value := range l2.LoopMeta() {
+					for _, kv := range sortedMeta(l2.LoopMeta()) {
+						key, value := kv[0], kv[1]
 						meta += " " + key + ":" + value + ","
 					}
 					bi.clusteredBondMachines[devId] += meta[:len(meta)-1] + "\n"
@@ -242,7 +253,8 @@ func (bi *BasmInstance) Assembler2Cluster() error {
 				} else {
 					dev1Id := bi.clusteredNames[l1DevName]
 					meta := "%meta ioatt " + l1.GetValue()
-					for key, value := range l1.LoopMeta() {
+					for _, kv := range sortedMeta(l1.LoopMeta()) {
+						key, value := kv[0], kv[1]
 						meta += " " + key + ":" + value + ","
 					}
 					bi.clusteredBondMachines[dev1Id] += meta[:len(meta)-1] + "\n"
@@ -257,7 +269,8 @@ func (bi *BasmInstance) Assembler2Cluster() error {
 					}
 
 					meta = "%meta ioatt " + l1.GetValue()
-					for key, value := range l1.LoopMeta() {
+					for _, kv := range sortedMeta(l1.LoopMeta()) {
+						key, value := kv[0], kv[1]
 						switch key {
 						case "index":
 							if l1.GetMeta("type") == "input" {
@@ -281,7 +294,8 @@ func (bi *BasmInstance) Assembler2Cluster() error {
 
 					dev2Id := bi.clusteredNames[l2DevName]
 					meta = "%meta ioatt " + l2.GetValue()
-					for key, value := range l2.LoopMeta() {
+					for _, kv := range sortedMeta(l2.LoopMeta()) {
+						key, value := kv[0], kv[1]
 						meta += " " + key + ":" + value + ","
 					}
 					bi.clusteredBondMachines[dev2Id] += meta[:len(meta)-1] + "\n"
@@ -295,7 +309,8 @@ func (bi *BasmInstance) Assembler2Cluster() error {
 					}
 
 					meta = "%meta ioatt " + l2.GetValue()
-					for key, value := range l2.LoopMeta() {
+					for _, kv := range sortedMeta(l2.LoopMeta()) {
+						key, value := kv[0], kv[1]
 						switch key {
 						case "index":
 							if l2.GetMeta("type") == "input" {
@@ -325,4 +340,33 @@ func (bi *BasmInstance) Assembler2Cluster() error {
 		}
 	}
 	return nil
+}
+
+// sortedMeta returns the key/value pairs of a metadata map in key order.
+func sortedMeta(m map[string]string) [][2]string {
+	keys := make([]string, 0, len(m))
+	for k := range m {
+		keys = append(keys, k)
+	}
+	sort.Strings(keys)
+	r := make([][2]string, 0, len(keys))
+	for _, k := range keys {
+		r = append(r, [2]string{k, m[k]})
+	}
+	return r
+}
+
+type devEntry struct {
+	name string
+	id   int
+}
+
+// sortedDevices returns the device table in id order.
+func sortedDevices(m map[string]int) []devEntry {
+	r := make([]devEntry, 0, len(m))
+	for n, id := range m {
+		r = append(r, devEntry{n, id})
+	}
+	sort.Slice(r, func(a, b int) bool { return r[a].id < r[b].id })
+	return r
 }
